@@ -16,6 +16,13 @@ def main():
     if C.IMPORT_ERROR:
         chk.broken.append({'kind': 'import', 'problem': C.IMPORT_ERROR})
     big = chk.thorough or bool(chk.broken)
+    unsafe = C.binding_safety_probe(chk)
+    if unsafe is not None:
+        # the binding tells iconv more than it allocated: nothing below may let the real iconv write through it
+        key = unsafe.pop('key')
+        chk.violation(unsafe['kind'], unsafe, key=key)
+        chk.coverage['aborted'] = 'the iconv binding overruns its buffer under a scripted iconv; the real-iconv streams were not run'
+        chk.finish(level='proof', rule='scripted iconv probe only', trusted=[], explanation=EXPLANATION)
     try:
         tool_names = sorted(set(E._extra_encodings) | set(E._portable_encodings))
     except Exception:
